@@ -6,6 +6,7 @@ import (
 	"math/big"
 	"reflect"
 	"strings"
+	"sync"
 	"testing"
 
 	"golang.org/x/crypto/ssh"
@@ -244,6 +245,149 @@ func c24Fill(rt *rapid.T, t reflect.Type) (reflect.Value, []string) {
 	return pv, classes
 }
 
+// ---- destination state: Unmarshal must overwrite every field of *out ---------------
+
+var c24Dest = struct {
+	mu sync.Mutex
+	n  map[string]int
+}{n: map[string]int{}}
+
+var c24FullPkt = map[reflect.Type][]byte{}
+
+func c24CountDest(k string) {
+	c24Dest.mu.Lock()
+	c24Dest.n[k]++
+	c24Dest.mu.Unlock()
+}
+
+// c24Sized builds a value of type t whose variable-length fields have the
+// given magnitude (2 = long, 1 = short, 0 = empty / zero) and whose scalar
+// fields are all-ones for size 2.
+func c24Sized(t reflect.Type, size int) reflect.Value {
+	pv := reflect.New(t)
+	v := pv.Elem()
+	n := []int{0, 3, 300}[size]
+	for i := 0; i < t.NumField(); i++ {
+		f := v.Field(i)
+		switch f.Kind() {
+		case reflect.Bool:
+			f.SetBool(size == 2)
+		case reflect.Uint8, reflect.Uint32, reflect.Uint64:
+			if size == 2 {
+				f.SetUint(^uint64(0) >> (64 - uint(f.Type().Bits())))
+			} else {
+				f.SetUint(uint64(size))
+			}
+		case reflect.String:
+			f.SetString(strings.Repeat("S", n))
+		case reflect.Array:
+			for j := 0; j < f.Len(); j++ {
+				f.Index(j).SetUint(uint64([]int{0, 0x11, 0xff}[size]))
+			}
+		case reflect.Slice:
+			if f.Type().Elem().Kind() == reflect.Uint8 {
+				f.SetBytes(bytes.Repeat([]byte{0xb7}, n))
+			} else {
+				var l []string
+				for j := 0; j < []int{0, 1, 9}[size]; j++ {
+					l = append(l, fmt.Sprintf("name-%d@example.com", j))
+				}
+				f.Set(reflect.ValueOf(l))
+			}
+		case reflect.Ptr:
+			x := new(big.Int)
+			if size > 0 {
+				x.Lsh(big.NewInt(-3), uint(8*n))
+			}
+			f.Set(reflect.ValueOf(x))
+		}
+	}
+	return pv
+}
+
+// c24Dirty returns a destination of type t that is not fresh: either filled
+// by a previous Unmarshal of a fully populated packet of the same type, or
+// filled with junk directly.
+func c24Dirty(t reflect.Type, kind string) (reflect.Value, error) {
+	if kind == "sentinel" {
+		return c24Sized(t, 2), nil
+	}
+	c24Dest.mu.Lock()
+	pkt := c24FullPkt[t]
+	c24Dest.mu.Unlock()
+	if pkt == nil {
+		var err error
+		if pkt, err = rw.Encode(c24Sized(t, 2).Interface()); err != nil {
+			return reflect.Value{}, err
+		}
+		c24Dest.mu.Lock()
+		c24FullPkt[t] = pkt
+		c24Dest.mu.Unlock()
+	}
+	dst := reflect.New(t)
+	if err := guard(func() error { return ssh.Unmarshal(pkt, dst.Interface()) }); err != nil {
+		return dst, fmt.Errorf("Unmarshal of a fully populated %s: %v", t.Name(), err)
+	}
+	return dst, nil
+}
+
+// c24Reused decodes data into non-fresh destinations and compares with the
+// result of decoding into a fresh struct (fresh, freshErr, and its re-marshal).
+func c24Reused(data []byte, t reflect.Type, fresh reflect.Value, freshErr error, freshRe []byte) error {
+	kinds := []string{"previously-unmarshaled", "sentinel"}
+	if freshErr != nil {
+		// rejected input: only the accept/reject decision is compared; one kind, alternating
+		kinds = kinds[len(data)%2 : len(data)%2+1]
+	}
+	for _, kind := range kinds {
+		dst, err := c24Dirty(t, kind)
+		if err != nil {
+			return err
+		}
+		derr := guard(func() error { return ssh.Unmarshal(data, dst.Interface()) })
+		if isPanic(derr) {
+			return fmt.Errorf("Unmarshal(%x) into a reused *%s (%s) %v", data, t.Name(), kind, derr)
+		}
+		if (derr == nil) != (freshErr == nil) {
+			return fmt.Errorf("Unmarshal(%x, *%s): fresh destination: %v, reused destination (%s): %v", data, t.Name(), freshErr, kind, derr)
+		}
+		c24CountDest("dest=" + kind)
+		if derr != nil {
+			continue
+		}
+		if ok, f := rw.Equal(dst, fresh); !ok {
+			return fmt.Errorf("Unmarshal(%x) into a reused *%s (%s) leaves field %s different from a decode into a fresh struct: reused %+v, fresh %+v", data, t.Name(), kind, f, dst.Elem().Interface(), fresh.Elem().Interface())
+		}
+		re, merr := c24GoMarshal(dst.Interface())
+		if merr != nil || !bytes.Equal(re, freshRe) {
+			return fmt.Errorf("Marshal after Unmarshal(%x) into a reused *%s (%s) gives %x (%v), after a fresh decode %x", data, t.Name(), kind, re, merr, freshRe)
+		}
+	}
+	return nil
+}
+
+// c24Sequence decodes the packets one after the other into ONE destination
+// and compares with a fresh decode after every step.
+func c24Sequence(t reflect.Type, pkts [][]byte, what string) error {
+	dst := reflect.New(t)
+	for i, pkt := range pkts {
+		fresh, ferr := c24GoUnmarshal(pkt, t)
+		derr := guard(func() error { return ssh.Unmarshal(pkt, dst.Interface()) })
+		if ferr != nil || derr != nil {
+			return fmt.Errorf("%s: step %d: Unmarshal(%x, *%s): fresh %v, reused %v", what, i, pkt, t.Name(), ferr, derr)
+		}
+		if ok, f := rw.Equal(dst, fresh); !ok {
+			return fmt.Errorf("%s: after decode #%d into the same *%s, field %s differs from a fresh decode of %x: %+v vs %+v", what, i+1, t.Name(), f, pkt, dst.Elem().Interface(), fresh.Elem().Interface())
+		}
+		re, merr := c24GoMarshal(dst.Interface())
+		if merr != nil || !bytes.Equal(re, pkt) {
+			return fmt.Errorf("%s: after decode #%d into the same *%s, Marshal gives %x (%v), the packet was %x", what, i+1, t.Name(), re, merr, pkt)
+		}
+		c24CountDest("dest=sequence-step")
+	}
+	return nil
+}
+
 // c24MinimalMpint checks RFC 4251's minimality rule on a body directly.
 func c24MinimalMpint(n *big.Int, body []byte) error {
 	if rw.MpintValue(body).Cmp(n) != 0 {
@@ -313,8 +457,9 @@ func c24Parse(data []byte, t reflect.Type) (accepted bool, err error) {
 	if (gerr == nil) != (rerr == nil) {
 		return false, fmt.Errorf("Unmarshal(%x, *%s): package says %v, reference parser says %v", data, t.Name(), gerr, rerr)
 	}
+	c24CountDest("dest=fresh")
 	if gerr != nil {
-		return false, nil
+		return false, c24Reused(data, t, got, gerr, nil)
 	}
 	if ok, f := rw.Equal(got, want); !ok {
 		return true, fmt.Errorf("Unmarshal(%x, *%s) field %s: got %+v, reference %+v", data, t.Name(), f, got.Elem().Interface(), want.Elem().Interface())
@@ -331,7 +476,7 @@ func c24Parse(data []byte, t reflect.Type) (accepted bool, err error) {
 	if lossy == (rw.Lossy{}) && !bytes.Equal(re, canon) {
 		return true, fmt.Errorf("Unmarshal(%x, *%s) succeeded but Marshal gives back %x (no non-minimal mpint, no boolean byte > 1 involved)", data, t.Name(), re)
 	}
-	return true, nil
+	return true, c24Reused(data, t, got, nil, re)
 }
 
 // c24Decode feeds a non-empty packet to the packet decoder.
@@ -389,6 +534,7 @@ func TestC24(t *testing.T) {
 	defer c.Flush(t)
 	c.Oracle("Unmarshal(Marshal(m)) == m for every message struct and ad hoc struct")
 	c.Oracle("refsshwire.Encode/Decode: independent RFC 4251 codec (KAT-checked): same bytes, same accept/reject decision, same values; direct minimal-two's-complement check of every mpint body")
+	c.Oracle("destination state: every Unmarshal is repeated into a struct previously filled by Unmarshal of a fully populated packet and into a struct filled with junk; result and re-marshal must equal those of a fresh destination; sequences of long/short/empty packets into one struct")
 	c.Oracle("no panic from Unmarshal (every type) and decode on arbitrary bytes; success implies re-marshal reproduces the input unless a non-minimal mpint or boolean byte > 1 was parsed")
 	if err := rw.SelfTest(); err != nil {
 		c.Inconclusive("reference self-test: " + err.Error())
@@ -432,6 +578,17 @@ func TestC24(t *testing.T) {
 				if !bytes.Contains(enc, rw.Mpint(nil, n)) {
 					rt.Fatalf("VF-VIOLATION: property=C24 %s: minimal mpint encoding of %s not found in %x", typ.Name(), n.Text(16), enc)
 				}
+			}
+		}
+		// one destination, three packets of shrinking size: full, this value, empty
+		{
+			fullPkt, e1 := rw.Encode(c24Sized(typ, 2).Interface())
+			emptyPkt, e2 := rw.Encode(c24Sized(typ, 0).Interface())
+			if e1 != nil || e2 != nil {
+				rt.Fatalf("harness: %v %v", e1, e2)
+			}
+			if err := c24Sequence(typ, [][]byte{fullPkt, enc, emptyPkt, enc}, "reused destination"); err != nil {
+				rt.Fatalf("VF-VIOLATION: property=C24 %v", err)
 			}
 		}
 		// decode on the valid encoding
@@ -522,6 +679,36 @@ func TestC24(t *testing.T) {
 	}
 	c.Exhaustive("one encoding per message type: every prefix, and every prefix followed by ffffffff, through all parsers", nTr)
 
+	// ---- one destination struct, sequences of packets with shrinking / growing fields ----
+	nSeq := 0
+	for ti, typ := range types {
+		if !ev.Mine(ti) {
+			continue
+		}
+		var pk [3][]byte
+		for size := 0; size < 3; size++ {
+			b, err := rw.Encode(c24Sized(typ, size).Interface())
+			if err != nil {
+				c.Inconclusive(err.Error())
+				t.Fatal(err)
+			}
+			pk[size] = b
+		}
+		for _, order := range [][]int{{2, 1, 0}, {0, 1, 2}, {2, 0, 2, 0}, {1, 0, 1, 2, 1}, {2, 2, 0, 0}} {
+			var seq [][]byte
+			for _, o := range order {
+				seq = append(seq, pk[o])
+			}
+			if err := c24Sequence(typ, seq, fmt.Sprintf("sizes %v (2 = long, 1 = short, 0 = empty)", order)); err != nil {
+				c.Violation(err.Error(), "")
+				t.Fatalf("VF-VIOLATION: property=C24 %v", err)
+			}
+			nSeq++
+			c.Case(true, fmt.Sprintf("destseq|%s|%v", typ.Name(), order), "table:reused-destination-sequence")
+		}
+	}
+	c.Exhaustive("every type x 5 orders of long/short/empty packets decoded into one destination struct (per shard)", nSeq)
+
 	// ---- mpint table: +-2^k, +-(2^k-1), +-(2^k+1) -----------------------------------
 	maxK := 4096
 	nMp := 0
@@ -576,6 +763,11 @@ func TestC24(t *testing.T) {
 		}
 	}
 	c.Exhaustive("mpints +-2^k, +-(2^k-1), +-(2^k+1), k = 0..4096 (quick: all k <= 600, byte-boundary neighbours above)", nMp)
+	c24Dest.mu.Lock()
+	for k, n := range c24Dest.n {
+		c.ClassN(k, n)
+	}
+	c24Dest.mu.Unlock()
 }
 
 func c24Short(s string) string {
